@@ -125,6 +125,8 @@ def lifecycle(start, end, execute, shutdown, create="_create_dispatcher", valida
     ]
 
 
+FIRST_FAILED = "not any(r.status == RunStatus.FAILED for r in _seq[:_i])"
+
 RUN_PARAMS = {"graph": GRAPH, "values": OPT(DICT(STR, ANY)), "select": ANY, "on_missing": STR, "on_internal_override": STR, "entrypoint": OPT(STR), "max_iterations": OPT(INT),
               "error_handling": STR, "event_processors": ANY, "_parent_span_id": OPT(STR), "input_values": DICT(STR, ANY)}
 
@@ -154,7 +156,10 @@ CONTRACTS = {
              "check": before_effects(MAP_VALIDATORS, {"_create_dispatcher", "_emit_run_start_sync", "_emit_run_end_sync", "_shutdown_dispatcher_sync", "run"})},
             {"name": "C12 map: RunStart(is_map) .. exactly one RunEnd on every path; item runs between; shutdown last", "check": bracket("_emit_run_start_sync", "_emit_run_end_sync", body={"run"}, shutdown="_shutdown_dispatcher_sync")},
         ],
-        loops=[{"invariant": []}],
+        # C10: one result per generated combination, in the order of the combinations: the item loop goes through
+        # `input_variations` itself and has appended exactly one result per item visited
+        ensures=["len(result) == len(input_variations)"],
+        loops=[{"over": "input_variations", "invariant": ["len(results) == _i"]}],
     ),
     TA + "AsyncRunnerTemplate.map": dict(
         props=["C08", "C10", "C12", "C15"],
@@ -168,10 +173,16 @@ CONTRACTS = {
              "check": before_effects(MAP_VALIDATORS, {"_create_dispatcher", "_emit_run_start_async", "_emit_run_end_async", "_shutdown_dispatcher_async", "_run_map_item", "_worker"})},
             {"name": "C12 map: RunStart(is_map) .. exactly one RunEnd on every path; item runs between; shutdown last",
              "check": bracket("_emit_run_start_async", "_emit_run_end_async", body={"_run_map_item", "_worker", "gather"}, shutdown="_shutdown_dispatcher_async")},
+            {"name": "C10 map, raise mode: the error that propagates from the scan is the error of the first FAILED entry of `results` (input order)",
+             "check": lambda tr, outcome, raised, env, ex, s: __import__("contracts.c_templates", fromlist=["x"]).scan_raises_first_failed(tr, outcome, raised, env, ex, s)},
             {"name": "C15 map: the shared limiter is installed only when none is active and a limit was given, and reset on every path before shutdown",
              "check": lambda tr, outcome, raised, env, ex, s: __import__("contracts.c_templates", fromlist=["x"]).map_limiter(tr, outcome, raised, env, ex, s)},
         ],
-        loops=[{"invariant": []}, {"invariant": []}, {"invariant": []}, {"invariant": []}],
+        imports={"RunStatus": "hypergraph.runners._shared.types"},
+        # the two raise-mode scans (unbounded branch: loop 1, bounded branch: loop 4) go through the RETURNED list `results`
+        # (input order) position by position, and stop at the first FAILED entry
+        loops=[{"invariant": []}, {"over": "results", "invariant": [FIRST_FAILED]}, {"invariant": []}, {"invariant": []},
+               {"over": "results", "invariant": [FIRST_FAILED]}],
     ),
     TA + "AsyncRunnerTemplate.map._run_map_item": dict(
         props=["C10", "C11"],
@@ -193,6 +204,29 @@ CONTRACTS = {
         loops=[{"invariant": []}],
     ),
 }
+
+
+def scan_raises_first_failed(tr, outcome, raised, env, ex, s):
+    """On a path whose exception left one of the raise-mode scans (no call between the iteration marker and the handler's
+    RunEnd), the raised object is the `error` of the entry of `results` at the scan position; the loop invariant (no FAILED
+    entry before that position) and the `over` obligation (the scan goes through `results` itself) make it the FIRST one."""
+    import z3
+    from pyvc import smt
+    from pyvc.engine import eq
+    from pyvc.values import Val
+    if not outcome.startswith("raise") or raised.exc is None:
+        return True
+    its = [k for k, e in enumerate(tr) if e[0] == "loop-iter" and e[1] in (1, 4)]
+    if not its:
+        return True
+    after = [e for e in tr[its[-1] + 1:] if e[0] in ("call", "call!")]
+    if not after or _nm(after[0][1]) != "_emit_run_end_async":
+        return True  # something called inside / after the scan raised: not the scan's own raise
+    if "results" not in env or "_i" not in env:
+        return False
+    view = ex.iter_view(env["results"], s)
+    entry = view.at(env["_i"].t if hasattr(env["_i"], "t") else env["_i"].i)
+    return raised.exc.t == smt.attr_func("error")(entry.t)
 
 
 def map_limiter(tr, outcome, raised, env, ex, s):
